@@ -42,7 +42,7 @@ FLOORS = {"quick": {"departures_checked": 20000, "drop_decisions_checked": 20000
                        "monitor_samples_coincident": 6000, "red_arrivals": 2000000, "red_prob_region_arrivals": 400000,
                        "red_below_min": 100000, "red_above_limit": 40000, "lohi_ambiguous": 2000,
                        "arrival_at_departure_instant": 20000}}
-KEYS = tuple(FLOORS["quick"].keys()) + ("monitor_cases", "red_cases", "port_cases")
+KEYS = tuple(FLOORS["quick"].keys()) + ("monitor_cases", "red_cases", "port_cases", "red_certain_drops_checked")
 
 
 def plan(tier):
@@ -87,13 +87,19 @@ def gen_red(rng):
     wf = rng.choice([1, 2, 3, 4])
     limit_bytes = rng.random() < 0.4
     unit = 100 if limit_bytes else 1
+    shape = rng.choice(["ramp", "ramp", "step", "narrow"])
     min_th = rng.choice([2, 3, 4]) * unit
-    max_th = min_th + rng.choice([2, 4, 6]) * unit
+    if shape == "ramp":
+        max_th = min_th + rng.choice([2, 4, 6]) * unit
+    elif shape == "step":
+        max_th = min_th                                   # no ramp at all: min_threshold == max_threshold
+    else:
+        max_th = min_th + rng.choice([0.25, 0.5]) * unit  # thresholds less than one unit apart
     qlimit = max_th + rng.choice([1, 3, 6]) * unit
     return {"kind": "red", "flavour": "float", "rate": rng.choice([800, 1600]), "qlimit": qlimit, "limit_bytes": limit_bytes,
-            "min_th": min_th, "max_th": max_th, "max_p": rng.choice([0.1, 0.3, 0.5, 1.0]), "wf": wf,
+            "min_th": min_th, "max_th": max_th, "max_p": rng.choice([0.1, 0.3, 0.5, 1.0, 1.0]), "wf": wf,
             "element_id": "red", "n": 15000, "rseed": rng.randrange(1 << 30),
-            "load": rng.choice([0.9, 1.0, 1.1, 1.3, 2.0])}
+            "load": rng.choice([0.9, 1.0, 1.1, 1.3, 2.0]), "shape": shape}
 
 
 # ---------------------------------------------------------------------------
@@ -379,6 +385,13 @@ def run_red(case, stats):
                     acc["n_hi"] += 1
                     acc["sum_p_hi"] += case["max_p"]
                     acc["drops_hi"] += dropped
+                    if case["max_p"] >= 1.0:
+                        stats["red_certain_drops_checked"] += 1
+                        if not dropped:
+                            bad("red-accept-at-max-threshold-with-probability-1",
+                                "REDPort accepted a packet at/above max_threshold although max_probability is 1",
+                                {"avg": avg, "max_th": case["max_th"], "min_th": case["min_th"]})
+                            return
                 else:
                     pk = case["max_p"] * (avg - case["min_th"]) / (case["max_th"] - case["min_th"])
                     acc["n"] += 1
